@@ -1008,15 +1008,62 @@ def foreign_case(target, label):
                 found=[('foreign-initiator:%s:%s:%s' % (target, label, e), text) for e, text in bad])
 
 
+def foreign_ke_case(target, group):
+    """a request whose KE payload is in a group the chosen suite does not have - also groups the library has no code for
+    (2, 5, 22, 31): the answer is INVALID_KE_PAYLOAD naming the chosen group, the IKE_SA stays, nothing is installed"""
+    tap = Tap(S.base_confs(a_over=T_IKE, b_over=T_IKE, a_entry=T_ENT, b_entry=T_ENT))
+    w = tap.w
+    tap.step(('acquire', 'A', 0, 0))
+    if target != 'INIT':
+        for _ in range(4):
+            tap.step(('deliver', w.net[0].id))
+        if target == 'CCSA':
+            tap.step(('acquire', 'A', 0, 0))
+        else:
+            tap.step(('due', 'A', 0, 'rekey_ike'))
+    d = w.net[0]
+    m = tap.open(d)
+    pl = [(ty, (struct.pack('>HH', group, 0) + b'\x5b' * 64) if ty == 34 else body) for ty, body in m['payloads']]
+    data = seal_datagram(m, pl, tap.keys_for(d))
+    tap.step(('drop', d.id))
+    b = w.endpoints['B']
+    n_sas, n_sad, n_log = len(b.controller.ike_sas), len(b.kernel.sad), len(b.kernel.log)
+    sent = len(w.sent_log)
+    tap.step(('inject', 'B', data, S.IP_A))
+    bad = []
+    if not b.alive:
+        return dict(outcome=(target, group, 'died'), found=[('foreign-ke:%s:group-%d:responder-died' % (target, group), repr(b.dead_reason[:2]))])
+    ress = [x for x in w.sent_log[sent:] if x.sender == 'B']
+    views = []
+    for x in ress:
+        o = tap.open(x) if target != 'INIT' else open_datagram(x.data)
+        if o:
+            views.append(view(o))
+    want = struct.pack('>H', 19)
+    if not views or views[0]['sa'] or views[0]['notes'].get(17) != want:
+        bad.append(('wrong-answer', 'KE in group %d (suite group 19): reply SA=%r notifications=%r' % (
+            group, views[0]['sa'] if views else None, {k: v.hex() for k, v in views[0]['notes'].items()} if views else None)))
+    if target != 'INIT':
+        est = [x for x in b.controller.ike_sas if x.state == State.ESTABLISHED]
+        if not est:
+            bad.append(('ike-sa-lost', 'the IKE_SA is in %r after the request' % [x.state.name for x in b.controller.ike_sas]))
+    if len(b.kernel.sad) != n_sad:
+        bad.append(('kernel-touched', 'SAD went from %d to %d entries' % (n_sad, len(b.kernel.sad))))
+    return dict(outcome=(target, group, len(bad)),
+                found=[('foreign-ke:%s:group-%d:%s' % (target, 'unimplemented' if group not in (14, 15, 16, 17, 18, 19, 20, 21) else group, e), text)
+                       for e, text in bad])
+
+
 def foreign_items():
     real = (1, ESP, b'\0\0\0\1', child_policy(T_ENT)[1])
-    return [(t, lab) for t in FOREIGN_TARGETS for lab, _ in foreign_variants(real)]
+    return [(t, lab) for t in FOREIGN_TARGETS for lab, _ in foreign_variants(real)] + \
+        [('KE', t, g) for t in ('INIT', 'CCSA', 'IKE-REKEY') for g in (20, 14, 2, 5, 22, 31, 0, 65535)]
 
 
 def work(item):
     part, arg = item
     if part == 'foreign':
-        return [foreign_case(*t) for t in arg]
+        return [foreign_case(*t) if t[0] != 'KE' else foreign_ke_case(t[1], t[2]) for t in arg]
     if part == 'unit':
         return unit_worker(arg)
     if part == 'e2e':
@@ -1064,7 +1111,8 @@ def replay(path):
     elif part == 'tamper':
         found = tamper_case(doc['target'], doc['label'])['found']
     elif part == 'foreign':
-        found = foreign_case(doc['target'], doc['label'])['found']
+        it = doc['item']
+        found = (foreign_ke_case(it[1], it[2]) if it[0] == 'KE' else foreign_case(it[0], it[1]))['found']
     for sig, msg in found:
         print('reproduced:', sig, '--', msg)
     print('REPLAY %s' % ('reproduces a violation' if found else 'does not reproduce'))
@@ -1130,9 +1178,9 @@ def main():
     # ---- part 4
     fflat = [t for (part, chunk) in work_items if part == 'foreign' for t in chunk]
     fouts = [r for (part, _), rs in zip(work_items, results) if part == 'foreign' for r in rs]
-    for (target, label), r in sorted(zip(fflat, fouts), key=lambda x: x[0]):
+    for item, r in sorted(zip(fflat, fouts), key=lambda x: repr(x[0])):
         for sig, msg in r['found']:
-            ck.violation(sig, msg, dict(part='foreign', target=target, label=label))
+            ck.violation(sig, msg, dict(part='foreign', item=list(item)))
     ck.coverage.update(foreign_initiator=dict(cases=len(fitems), outcomes=sorted({repr(r['outcome']) for r in fouts})[:20]))
     ck.coverage.update(
         evaluations=n_unit + len(flat) + len(titems) + len(fitems),
